@@ -279,6 +279,7 @@ func init() {
 			{Name: "sizes", QShards: 2, TShards: 8, Run: c01Sizes},
 			{Name: "prefixes", Run: prefixUnit("fasta", false, 0)},
 			{Name: "edges", Run: edgeUnit("fasta")},
+			{Name: "lexicon", TShards: 4, Run: lexiconUnit("fasta")},
 			{Name: "fieldlens", TShards: 2, Run: lengthUnit("fasta")},
 			{Name: "parallel", Race: true, Run: codecParallel("fasta")},
 			{Name: "histories", Run: codecHistories("fasta")},
